@@ -109,9 +109,16 @@ async def start_client(
 
                 if rate_limiter and rate_limiter.is_limited(remote_addr, message):
                     if command == "EVENT":
+                        # the payload has not been validated yet: only echo
+                        # an id that is a string
+                        eventid = ""
+                        if isinstance(message[1], dict) and isinstance(
+                            message[1].get("id"), str
+                        ):
+                            eventid = message[1]["id"]
                         response = [
                             "OK",
-                            message[1]["id"],
+                            eventid,
                             False,
                             "rate-limited: slow down",
                         ]
